@@ -195,13 +195,8 @@ func msdUint(a, aux []uint, lo, hi, d int) {
 		return
 	}
 
-	// special case for most significant byte
-	if d == 0 && count[R/2] > 0 {
-		msdUint(a, aux, lo, lo+count[R/2]-1, d+1)
-	}
-
-	// special case for other bytes
-	if d != 0 && count[0] > 0 {
+	// first bucket (digit 0); unsigned numbers need no special case for the most significant byte
+	if count[0] > 0 {
 		msdUint(a, aux, lo, lo+count[0]-1, d+1)
 	}
 
